@@ -42,22 +42,7 @@ META = {
 }
 
 # Demonstrated on the unchanged tree (see the family report).
-PROPOSED_KNOWN = [
-    {"kind": "known",
-     "signature": {"fam": "mdescape", "clause": "codeblock", "cause": "lone-cr"},
-     "what": "markdownCodeBlockEscape (internal/runtime/escapers.go) writes no indentation after a lone CR, which CommonMark 2.1 "
-             "defines as a line ending: the value \"a\\rb\" shown in an indented code block puts b on an unindented line, outside "
-             "the block (latent with goldmark, which does not split lines at a lone CR)"},
-    {"kind": "known",
-     "signature": {"fam": "mdescape", "clause": "codeblock", "cause": "lf-cr"},
-     "what": "markdownCodeBlockEscape treats LF CR as one line ending and writes the indentation after the CR; goldmark (and any "
-             "converter that splits lines at LF only) sees the next code line start with CR instead of the indentation: the value "
-             "\"\\n\\rb\" shown in an indented code block ends the block, b becomes a paragraph (goldmark-confirmed)"},
-    {"kind": "known",
-     "signature": {"fam": "mdescape", "clause": "inert", "cause": "indent"},
-     "what": "markdownEscape (internal/runtime/escapers.go) keeps a tab that follows a line ending: the value \"\\n\\n\\ta\" shown in "
-             "a paragraph (or \"\\n\\ta\" after a heading) starts an indented code block (<pre><code>) in goldmark"},
-]
+PROPOSED_KNOWN = []   # the three findings (two root causes) of this check were fixed in /repo (known-findings.json, kind "fixed")
 
 FAMS = ["mdescape"]
 # many short TLC processes run side by side: keep each JVM's collector from starting one GC thread per core
